@@ -53,7 +53,7 @@ META = {
 def run(ctx):
     obs = ctx.obs
     obs.extra['meta'] = META
-    total = ctx.n(320, 8000)
+    total = ctx.n(320, 24000)
     for case, rng in ctx.cases(total):
         conv = CONVENTIONS[case % len(CONVENTIONS)]
         spec = {'case': case, 'convention': conv}
